@@ -158,6 +158,11 @@ R(s, o) == [s |-> s, o |-> o]
 \* volunteered, and explicit writes, are never dropped.
 MW(k, t, v, cl, real) == [k |-> k, t |-> t, v |-> v, cl |-> cl, real |-> real]
 Dropped(w, evk) == w.real /\ w.t # "fail" /\ w.k \in evk
+\* ... and it is also dropped when, at the moment it would be applied, the key holds a live entry other than the one the
+\* load was started for: live0 = keys that were live when the operation began (their reload expects that entry), changed =
+\* keys installed since then (by a loader that volunteered them)
+DroppedAt(w, s, evk, live0, changed) ==
+    Dropped(w, evk) \/ (w.real /\ w.t # "fail" /\ Live(s, w.k) /\ (w.k \notin live0 \/ w.k \in changed))
 ExecMW(s, w) == CASE w.t = "put" -> Install(s, w.k, w.v, w.cl)
                   [] w.t = "del" -> Remove(s, w.k)
                   [] OTHER       -> FailHook(s, w.k)
